@@ -15,7 +15,24 @@ mux `burst`: the receive loop's pending read and the reads that follow it return
 yielding (stepnet `release_burst`): a frame — or several — and the end of stream / read error right
 behind it.  The `_ProcessReply` greenlets of those frames, which `_Shutdown` does not kill, then run
 after the `_Shutdown`.  Every response a request's sink stack is ever handed is logged (LogStack), so a
-request completed twice shows as two entries of `dels`."""
+request completed twice shows as two entries of `dels`.
+
+mux `race`: ['race', reads, pos, hit] — the reads of a burst and, *in the same drain*, one more event of the
+environment (`hit`: 'rdraise' / 'rdeof' = the receive loop's next read fails, 'wr' = the send loop's pending write
+raises, 'close' = Close() is called) at a chosen position among the greenlets of that drain:
+  first : the hit is noticed before the receive loop has taken the reads (write error / Close() only);
+  pre   : after the receive loop has taken the reads and spawned the `_ProcessReply` greenlets, before they run
+          (for a failing read this is a `burst`);
+  mid   : after the `_ProcessReply` greenlets ran — a reply delivered, a ping's result set — and before the
+          greenlets they woke resume (`_OpenImpl` waiting for the handshake's Rping, the ping helper).
+mux `openburst`: ['openburst', reads] — Open() on an endpoint that accepts the connection and whose first bytes,
+reset or end of stream are already there: the receive loop, first of the greenlets `_OpenImpl` spawned to start,
+meets them before the send loop and the ping helper have run at all (the model: the open, then the burst).
+
+The positions are reached by stepping the event loop one generation of callbacks at a time (`gevent.sleep(0)`
+runs exactly the callbacks that were scheduled when it was called): release the reads, let the receive loop run,
+let the `_ProcessReply` greenlets run.  The timers of the ping loop / ping helper cannot land inside a drain: the
+loop (gevent's and the virtual one) runs timers only when no callback is left."""
 import json
 import zlib
 import itertools
@@ -36,11 +53,22 @@ ASSUMPTIONS = ['gevent is cooperative: between two blocking calls a transport me
                'mux: Open() is called once, requests are not issued while the open waits for its first Rping, '
                'no Deadline event on mux requests (C12), tags of in-flight requests are distinct (C11)',
                'a deliberate Close() with a serial transaction in flight kills it without a response: nothing claimed',
-               'ping intervals: random.randint(30, 40) is replaced by 30 (virtual seconds)']
+               'ping intervals: random.randint(30, 40) is replaced by 30 (virtual seconds)',
+               'events inside a drain (race): positions are generations of the callback list (gevent runs callbacks '
+               'FIFO; gevent.sleep(0) from the harness runs exactly the callbacks scheduled so far); a timer (ping '
+               'loop, 5 s ping helper) cannot land inside a drain because the loop runs timers only when no callback is '
+               'left, so ping silence / ping due are operations of their own',
+               'callers blocked in AsyncProcessRequest on the open result are not part of this component (the '
+               'resmux component of C09 has them)']
 RULE = ('scripts = corpus + seeded random operation lists + exhaustive enumeration of fault position x fault kind x '
         'requests in flight (serial 0-1, mux 0-3) through the third transaction, for the mux transport also with the '
         'read fault (error / EOF, in a header / a body) arriving in one burst right behind 1-2 frames (reply of an '
-        'in-flight request, Rping, junk) that are read but not yet dispatched; distinct = distinct applied op '
+        'in-flight request, Rping, junk) that are read but not yet dispatched, with a failing read / failing write / '
+        'Close() landing at each position inside the drain that reads such frames (before the reads are taken, before '
+        'the _ProcessReply greenlets run, after they ran and before the greenlets they woke — _OpenImpl, the ping '
+        'helper — resume; during the opening handshake with the Tping written or not, and with 0-3 requests in '
+        'flight), and with the first reads of a connection (frames, reset, end of stream) already there when the '
+        'receive loop starts; distinct = distinct applied op '
         'list; non-trivial = a connection failure, a timeout, a concurrency rejection or a deliberate close happened')
 
 
@@ -294,6 +322,35 @@ class MuxT(Base):
             if op[1] == 'refuse':
                 self.tags.add('connect-refused')
             return 'open %s' % op[1]
+        if kind == 'openburst':
+            # ['openburst', [[outcome, frame], ...]]: the connect succeeds and the outcomes of the receive loop's
+            # first reads (bytes, a reset, the end of the stream) are already there when the loop starts — before
+            # the send loop and the ping helper, spawned by the same _OpenImpl, have run at all.
+            if s._open_result or s.state != ChannelState.Idle or not op[1]:
+                return None
+            at_hdr, reads, applied, nframes = True, [], [], 0
+            for o, f in op[1]:
+                applied.append([o, f])
+                if o != 'ok':
+                    reads.append((o, None))
+                    self.tags.add('openburst-%s-at-%s-behind-%d-frames' % (o, 'hdr' if at_hdr else 'body',
+                                                                           min(3, nframes)))
+                    self.tags.add('read-%s-at-%s-with-0-in-flight' % (o, 'hdr' if at_hdr else 'body'))
+                    self.tags.add('fault-during-open')
+                    break
+                if at_hdr:
+                    reads.append(('ok', pack('!i', FRAME_LEN)))
+                else:
+                    reads.append(('ok', _frame(f)))
+                    nframes += 1
+                    self.tags.add('openburst-frame-' + (f if isinstance(f, str) else 'reply'))
+                at_hdr = not at_hdr
+            self.tags.add('openburst')
+            self.sock.next_connect = 'ok'
+            self.sock.next_buffered = reads
+            self.open_ar = s.Open()
+            rt.drain()
+            return 'openburst %s' % vfmt([[o, tuple(f) if isinstance(f, list) else f] for o, f in applied])
         if kind == 'req':
             if s.state == ChannelState.Idle and s._open_result:
                 return None                      # the caller would block on the open result
@@ -379,6 +436,8 @@ class MuxT(Base):
             c.release_burst(reads)
             rt.drain()
             return 'burst %s' % vfmt([[o, tuple(f) if isinstance(f, list) else f] for o, f in applied])
+        if kind == 'race':
+            return self.race(op)
         if kind == 'pingdue':
             if s.state != ChannelState.Open or s._ping_ar is not None or len(s._greenlets) < 3:
                 return None
@@ -403,6 +462,95 @@ class MuxT(Base):
         if kind == 'look':
             return 'look'
         raise ValueError(op)
+
+
+def _mux_race(self, op):
+    """['race', reads, pos, hit] — see the module docstring.  Returns the op text, or None if not applicable."""
+    import gevent
+    import rt
+    from scales.constants import ChannelState
+    s = self.sink
+    _, rs, pos, hit = op
+    c = self.conn()
+    if c is None or c.pend['read'] is None or not rs:
+        return None
+    if hit == 'wr' and c.pend['write'] is None:
+        return None
+    at_hdr = c.pend['read'].arg == 4
+    reads, applied, frames, fault = [], [], [], None
+    for o, f in rs:
+        applied.append([o, f])
+        if o != 'ok':
+            reads.append((o, None))
+            fault = o
+            break
+        if at_hdr:
+            reads.append(('ok', pack('!i', FRAME_LEN)))
+        else:
+            reads.append(('ok', _frame(f)))
+            frames.append(f)
+        at_hdr = not at_hdr
+    if hit in ('rdraise', 'rdeof') and (pos == 'first' or fault is not None):
+        return None                  # the receive loop is not there to take that read
+    phase = 'handshake' if s.state == ChannelState.Idle else 'open' if s.state == ChannelState.Open else 'closed'
+    ping_out = getattr(s, '_ping_ar', None) is not None
+    # tags are computed before anything moves
+    tags = ['race', 'race-%s-%s' % (pos, hit), 'race-%s-%s-in-%s' % (pos, hit, phase),
+            'race-with-%d-in-flight' % min(3, len(s._tag_map)), 'race-behind-%d-frames' % min(3, len(frames))]
+    if fault is not None:
+        tags.append('race-read-fault-too')
+    if 'rping' in frames and ping_out:
+        tags.append('race-%s-%s-%s-rping' % (pos, hit, 'handshake' if phase == 'handshake' else 'periodic'))
+    if any(isinstance(f, (list, tuple)) and f[1] in s._tag_map for f in frames):
+        tags.append('race-%s-with-reply' % pos)
+    if hit != 'close' or (fault is not None and pos != 'first'):
+        tags.append('race-fault-with-%d-in-flight' % min(3, len(s._tag_map)))
+        if s.state == ChannelState.Idle:
+            tags.append('fault-during-open')
+    else:
+        tags.append('close')
+    for t in tags:
+        self.tags.add(t)
+
+    def do_hit():
+        if hit == 'close':
+            s.Close()
+        elif hit == 'wr':
+            if c.pend['write'] is not None:
+                c.release('write', 'raise')
+            else:
+                self.tags.add('harness-race-hit-not-applicable')
+        else:
+            if c.pend['read'] is not None and not c.closed:
+                c.release('read', 'raise' if hit == 'rdraise' else 'eof')
+            else:
+                self.tags.add('harness-race-hit-not-applicable')
+
+    if pos == 'first':
+        do_hit()
+        c.release_burst(reads)
+    elif pos == 'pre':
+        if hit in ('rdraise', 'rdeof'):
+            # behind the reads, already buffered: the receive loop does not yield before it meets it
+            c.release_burst(reads + [('raise' if hit == 'rdraise' else 'eof', None)])
+        elif hit == 'wr':
+            c.release_burst(reads)
+            do_hit()                 # the receive loop is resumed first, the send loop right behind it
+        else:
+            c.release_burst(reads)
+            gevent.sleep(0)          # the receive loop has run; the `_ProcessReply` greenlets have not
+            do_hit()
+    else:
+        c.release_burst(reads)
+        gevent.sleep(0)              # the receive loop has run and blocks in its next read (or is gone)
+        if hit == 'close':
+            gevent.sleep(0)          # the `_ProcessReply` greenlets have run; what they woke has not
+        do_hit()                     # (a released read / write resumes its loop behind the `_ProcessReply`s)
+    rt.drain()
+    return 'race %s %s %s' % (vfmt([[o, tuple(f) if isinstance(f, list) else f] for o, f in applied]), pos, hit)
+
+
+MuxT.race = _mux_race
 
 
 def run_script(script):
@@ -476,12 +624,50 @@ def _gen_burst(rng, tags):
     return ['burst', reads]
 
 
+def _gen_race(rng, tags, rping=0.25):
+    """the reads of a burst (mostly one or two frames, often an Rping or the reply of a request in flight) and one
+    more event in the same drain"""
+    reads = []
+    if rng.random() < 0.6:
+        reads.append(['ok', 'junk'])           # the header, if the loop is about to read one
+    for k in range(rng.choice([1, 1, 1, 2, 3])):
+        f = rng.random()
+        reads.append(['ok', 'rping' if f < rping else 'junk' if f < rping + 0.1 else ['reply', rng.choice(tags + [77])]])
+        if k or rng.random() < 0.5:
+            reads.append(['ok', 'junk'])
+    if rng.random() < 0.12:
+        reads.append([rng.choice(['eof', 'raise']), 'junk'])
+    pos = rng.choice(['first', 'pre', 'mid', 'mid', 'mid'])
+    hit = rng.choice(['wr', 'close'] if pos == 'first' else ['rdraise', 'rdeof', 'wr', 'wr', 'close'])
+    return ['race', reads, pos, hit]
+
+
+def _gen_openburst(rng):
+    reads = []
+    for _ in range(rng.choice([0, 0, 1, 1, 2])):
+        f = rng.random()
+        reads += [['ok', 'junk'], ['ok', 'rping' if f < 0.5 else 'junk' if f < 0.7 else ['reply', rng.choice([1, 2, 77])]]]
+    if rng.random() < 0.3:
+        reads.append(['ok', 'junk'])
+    if rng.random() < 0.75 or not reads:
+        reads.append([rng.choice(['eof', 'raise']), 'junk'])
+    return ['openburst', reads]
+
+
 def _gen_mux(rng, n):
-    ops = [['open', 'ok' if rng.random() < 0.93 else 'refuse']]
+    ops = [_gen_openburst(rng) if rng.random() < 0.08 else ['open', 'ok' if rng.random() < 0.93 else 'refuse']]
     p_fault = rng.choice([0.0, 0.03, 0.08, 0.2])
-    if rng.random() < 0.8:
-        ops += [['wr', 'ok'], ['rd', 'ok', 'rping'], ['rd', 'ok', 'rping']]
     tags = [2, 3, 4, 5, 6]
+    y = rng.random()
+    if y < 0.7:
+        ops += [['wr', 'ok'], ['rd', 'ok', 'rping'], ['rd', 'ok', 'rping']]
+    elif y < 0.85:
+        # an event in the drain that dispatches the handshake's Rping
+        if rng.random() < 0.7:
+            ops.append(['wr', 'ok'])
+        if rng.random() < 0.5:
+            ops.append(['rd', 'ok', 'junk'])
+        ops.append(_gen_race(rng, tags, rping=0.8))
     for _ in range(n):
         x = rng.random()
         if x < p_fault:
@@ -494,8 +680,10 @@ def _gen_mux(rng, n):
             f = rng.random()
             fr = 'rping' if f < 0.25 else 'junk' if f < 0.3 else ['reply', rng.choice(tags + [1, 77])]
             ops.append(['rd', 'ok', fr])
-        elif x < 0.85:
+        elif x < 0.82:
             ops.append(_gen_burst(rng, tags))
+        elif x < 0.87:
+            ops.append(_gen_race(rng, tags))
         elif x < 0.92:
             ops.append(['pingdue'])
         elif x < 0.95:
@@ -564,6 +752,33 @@ def _mux_cases():
                 yield hs[:i] + [['burst', [['ok', 'junk'], ['ok', fr], [x, 'junk']]]] + tail
                 yield hs[:i] + [['burst', [['ok', 'junk'], ['ok', fr], ['ok', 'junk'], [x, 'junk']]]] + tail
             yield hs[:i] + [['rd', 'ok', 'junk'], ['burst', [['ok', 'rping'], [x, 'junk']]]] + tail
+    # the connection is accepted and reset / ended / answered at once: the receive loop meets that before the send
+    # loop and the ping helper have started
+    for x in ('raise', 'eof'):
+        yield [['openburst', [[x, 'junk']]]] + tail
+        yield [['openburst', [['ok', 'junk'], [x, 'junk']]]] + tail
+        for fr in ('rping', 'junk', ['reply', 2]):
+            yield [['openburst', [['ok', 'junk'], ['ok', fr], [x, 'junk']]]] + tail
+            yield [['openburst', [['ok', 'junk'], ['ok', fr], ['ok', 'junk'], [x, 'junk']]]] + tail
+    for fr in ('rping', 'junk', ['reply', 2]):
+        yield [['openburst', [['ok', 'junk'], ['ok', fr]]]] + hs[1:] + tail
+        yield [['openburst', [['ok', 'junk'], ['ok', fr], ['ok', 'junk']]], ['wr', 'raise']] + tail
+        yield [['openburst', [['ok', 'junk'], ['ok', fr]]], ['race', [['ok', 'junk'], ['ok', 'rping']], 'mid', 'wr']] + tail
+    # one more event in the drain that reads (and dispatches) the handshake's Rping, or another frame: every
+    # position x every event, with the Tping written or still being written, from a header or a body read
+    for i in (1, 2):
+        for fr in ('rping', 'junk', ['reply', 2]):
+            for pos in ('first', 'pre', 'mid'):
+                for hit in ('rdraise', 'rdeof', 'wr', 'close'):
+                    if (hit == 'wr' and i == 2) or (pos == 'first' and hit.startswith('rd')):
+                        continue
+                    yield hs[:i] + [['race', [['ok', 'junk'], ['ok', fr]], pos, hit]] + tail
+                    yield hs[:i] + [['rd', 'ok', 'junk'], ['race', [['ok', fr]], pos, hit]] + tail
+                    yield hs[:i] + [['race', [['ok', 'junk'], ['ok', fr], ['ok', 'junk']], pos, hit]] + tail
+                    if fr == 'rping':
+                        yield hs[:i] + [['race', [['ok', 'junk'], ['ok', 'junk'], ['ok', 'junk'], ['ok', fr]], pos,
+                                         hit]] + tail
+                        yield hs[:i] + [['race', [['ok', 'junk'], ['ok', fr], ['eof', 'junk']], pos, hit]] + tail
     fault_kinds = [
         [['wr', 'raise']],
         [['rd', 'raise', 'junk']], [['rd', 'eof', 'junk']],
@@ -585,6 +800,19 @@ def _mux_cases():
             [['pingdue'], ['burst', [['ok', 'junk'], ['ok', 'rping'], ['ok', 'junk'], ['ok', ['reply', 2]],
                                      [x, 'junk']]]],
         ]
+    # a failing read / write / a Close() in the middle of the drain that dispatches a reply or a periodic Rping
+    for pos in ('first', 'pre', 'mid'):
+        for hit in ('rdraise', 'rdeof', 'wr', 'close'):
+            if pos == 'first' and hit.startswith('rd'):
+                continue
+            fault_kinds += [
+                [['race', [['ok', 'junk'], ['ok', ['reply', 2]]], pos, hit]],
+                [['race', [['ok', 'junk'], ['ok', ['reply', 3]], ['ok', 'junk'], ['ok', ['reply', 2]]], pos, hit]],
+                [['rd', 'ok', 'junk'], ['race', [['ok', ['reply', 2]], ['ok', 'junk']], pos, hit]],
+                [['pingdue'], ['race', [['ok', 'junk'], ['ok', 'rping']], pos, hit]],
+                [['pingdue'], ['wr', 'ok'], ['race', [['ok', 'junk'], ['ok', 'rping'], ['ok', 'junk'],
+                                                      ['ok', ['reply', 2]]], pos, hit]],
+            ]
     # several frames in one burst, no fault
     fault_kinds += [
         [['burst', [['ok', 'junk'], ['ok', ['reply', 3]], ['ok', 'junk'], ['ok', ['reply', 2]]]], ['rd', 'eof', 'junk']],
@@ -626,14 +854,16 @@ def shrink(script):
     for i in range(len(ops) - 1, -1, -1):
         yield {'t': script['t'], 'ops': ops[:i] + ops[i + 1:]}
     for i in range(len(ops) - 1, -1, -1):
-        if ops[i][0] == 'burst' and len(ops[i][1]) > 1:
+        if ops[i][0] in ('burst', 'race', 'openburst') and len(ops[i][1]) > 1:
             reads = ops[i][1]
             for j in range(len(reads) - 1, -1, -1):
-                yield {'t': script['t'], 'ops': ops[:i] + [['burst', reads[:j] + reads[j + 1:]]] + ops[i + 1:]}
+                yield {'t': script['t'],
+                       'ops': ops[:i] + [[ops[i][0], reads[:j] + reads[j + 1:]] + ops[i][2:]] + ops[i + 1:]}
 
 
 def nontrivial(case):
     t = set(case.get('tags', []))
     return any(x.startswith(('io-', 'timeout-', 'connect-', 'deadline-past', 'concurrent', 'close', 'write-raise',
-                             'read-', 'burst-', 'ping-silence', 'fault-during-open', 'request-while-not-open'))
+                             'read-', 'burst-', 'race', 'openburst', 'ping-silence', 'fault-during-open',
+                             'request-while-not-open'))
                for x in t)
